@@ -410,9 +410,21 @@ impl Property for ReportProp {
     }
     fn required_probes(&self) -> Vec<&'static str> {
         if self.id == "C12" {
-            vec!["only_high_or_medium", "all_three_severities", "category_absent"]
+            vec![
+                "only_high_or_medium",
+                "all_three_severities",
+                "category_absent",
+                "more_than_256_entries",
+                "more_than_65536_entries",
+            ]
         } else {
-            vec!["same_file_under_two_patterns", "name_with_colon", "many_files_one_pattern"]
+            vec![
+                "same_file_under_two_patterns",
+                "name_with_colon",
+                "many_files_one_pattern",
+                "more_than_256_entries",
+                "more_than_65536_entries",
+            ]
         }
     }
     fn rule(&self) -> String {
@@ -453,6 +465,9 @@ fn probes(r: &mut ScnResult, findings: &Flat, t: &Tables) {
     );
     r.probe("name_with_colon", findings.iter().any(|e| e.file.contains(':')));
     r.probe("many_files_one_pattern", by_pat.values().any(|n| *n >= 3));
+    let total: usize = findings.iter().map(|e| e.lines.len()).sum();
+    r.probe("more_than_256_entries", total > 256);
+    r.probe("more_than_65536_entries", total > 65_536);
     let cats: std::collections::BTreeSet<&str> = findings.iter().map(|e| &e.pat[..2]).collect();
     r.probe("category_absent", cats.len() < 3 && !cats.is_empty());
     let sev = |s: report::Severity| {
